@@ -68,3 +68,39 @@ func VerifWriteOrderTwin() {
 	c.Write(symapi.Bytes("p", 2))
 	symapi.Assert(len(sock.log) == 0, "twin-nothing-reaches-the-socket")
 }
+
+// VerifWriteOrderLarge: the same order property at real sizes - buffer sizes, buffered amounts
+// and write lengths drawn from classes around the 8 KiB minimum and the configured size. The
+// bytes carry their stream position (mod 251), so any reordering or loss is visible.
+func VerifWriteOrderLarge() {
+	bs := []int{8192, 8193, 16384}[symapi.Choose("bufferSize", 3)]
+	k := []int{0, 1, 4, bs / 2, bs - 8192, bs - 4, bs - 1, bs}[symapi.Choose("buffered", 8)]
+	if k < 0 {
+		k = 0
+	}
+	n := []int{0, 1, 4, 1400, 8191, 8192, 8193, bs - k, bs - k + 1, bs, bs + 1, 2*bs + 5}[symapi.Choose("writeLen", 12)]
+	sock := &verifSock{}
+	c := verifConn(sock, bs)
+	verifLimitVerdict = symapi.Bool("limiterBuffers")
+	total := k + n
+	all := make([]byte, total)
+	for i := range all {
+		all[i] = byte(i % 251)
+	}
+	c.writer.Write(all[:k])
+	nn, err := c.Write(all[k:])
+	symapi.Assert(err == nil && nn == n, "write-reports-all-bytes")
+	got := append(append([]byte{}, sock.log...), c.writer.Bytes()...)
+	symapi.Assert(len(got) == total, "no-byte-lost-or-duplicated")
+	for i := 0; i < total && i < len(got); i++ {
+		if got[i] != all[i] {
+			symapi.Assert(false, "bytes-in-order")
+		}
+	}
+	symapi.Assert(c.writer.Len() <= bs, "buffer-within-its-size")
+	symapi.Reach("end")
+}
+
+var verifLimitVerdict bool
+
+func verifLimitStub(l *rate.Limiter) bool { return verifLimitVerdict }
